@@ -70,3 +70,13 @@ func genDebug(args []string) {
 		fmt.Print(renderProgram(prog))
 	}
 }
+
+// `vh ss`: print the small-scope programs (debugging aid).
+func ssDebug(args []string) {
+	for i, s := range smallScopePrograms(len(args) > 0) {
+		if i > 0 {
+			fmt.Println("----")
+		}
+		fmt.Print(renderProgram(s.Prog))
+	}
+}
